@@ -7,6 +7,19 @@ V = "/verif"
 PY = "/venv/bin/python"
 
 CHECKS = {
+ "C10": dict(cat="model_checking", technique="TLA+ expression model (spec/Expr.tla: precedence-climbing Denote, builder machine) model-checked incl. negative configs; TLC-generated expression trees replayed into the parser; recorded token traces validated by TLC (spec/TraceExpr.tla)",
+   text="TLC checks NoRegroup / FlatKept / Wrapped / Stable / RoundTrip for the contract expression rule on all trees of <=3 (thorough 4) operator nodes, runs the model of the implementation's own builders as a lead finder and must reject three negative configurations (OR/AND swapped, and/or or comparison builders without parentheses). It emits every well-typed tree shape x every root operator spelling (and again with function-call leaves) plus simulated trees up to 12 operators; each is rendered with concrete operands in the six host positions, loaded, dumped and re-loaded by the real code; the token sequences of source, stored string, printed text and re-loaded string are validated by TLC: same denotation under MapServer's ladder, operands and operator spellings unchanged and in order (&& || ! -> AND OR NOT), printed = stored, reload = stored.",
+   note="Trusted: TLC, harness/exprtok.py (independent tokenizer/renderer, no mappyfile imports). Generation is typed the way MapServer types expressions; sources the grammar rejects are skipped and counted (acceptance is not C10). % is a comparison-level operator in this grammar, as the property says.",
+   ref="7/C10 and 13.5"),
+ "C12": dict(cat="model_checking", technique="TLA+ call/worker-object model (spec/Calls.tla) model-checked under fresh and shared policies incl. six negative configs; purity traces validated by TLC (spec/TraceCalls.tla); TLC-generated call histories and thread schedules forced on the real code through run-time seams",
+   text="TLC checks ArgsUnchanged (action property) and SeqEquivalent for every interleaving of 2 (thorough 3) threads under the fresh-object policy and every history of <=4 (6) calls on reused workers, and must reject six negative configurations (shared parser, shared validator, buffer not cleared, cache key without version, lower-casing in place, find inserting). Verdict from the real code: (a) every public call on generated and corpus documents is bracketed by deep snapshots of all arguments, each record judged by TLC with the UNCHANGED clause of its call kind; (b) TLC-simulated call histories replayed on one set of reused worker objects must equal fresh-object results and the abstract value the spec attaches; (c) every interleaving of two (three) calls at model program counters is enumerated by TLC and forced on real threads through class-level wrappers installed at run time; (d) a free-running 16-thread stress run under a 1e-6 s switch interval.",
+   note="Trusted: TLC, snapshot/digest code, the seam wrappers (harness/c12lib.py), CPython threading. Seam granularity = wrapped methods and token groups; preemption inside a bytecode sequence only in the stress run. Schedule waits carry deadlines: a stuck schedule is exit 2, never a violation.",
+   ref="7/C12 and 13.5"),
+ "C20": dict(cat="model_checking", technique="TLA+ front-end model (spec/Frontend.tla) model-checked incl. four negative variants; every TLC-emitted command configuration realised with real files and CLI subprocesses; API call behaviours over character-class strings replayed",
+   text="TLC checks the exit rule (total, zero iff all good, exact when it fits), one line per message, format = save(open()), schema = API export, reader agreement, writer agreement and string survival on all 4,095 validate + 1,620 format + 8 schema configurations and all api documents of <=2 strings x 19 character kinds x 40 layouts, and must reject four broken variants. The harness realises each emitted configuration with real files under /tmp and real subprocesses importing the tree under test: exit status, stdout line counts, summary numbers, format output bytes vs save(open()) under the resolved options, schema bytes vs the API; generated documents whose strings are drawn from 19 kinds (Latin-1, CJK, astral, NBSP, RTL, combining, BOM, U+2028/9, NEL, FF, VT, TAB, LF/CR/CRLF inside a value) are replayed call by call through open/load/loads and save/dump/dumps.",
+   note="Trusted: TLC, the fixture strings (self-checked against the spec's class runs), the OS for files / processes / exit statuses. Quick draws 60 + 28 + 8 of the 5,723 emitted configurations, thorough all.",
+   ref="7/C20 and 13.5"),
+
  "C09": dict(cat="model_checking", technique="TLA+ Validator cache/contract model (spec/Validator.tla) model-checked incl. a negative config; TLC-emitted probe and schema tables and call histories replayed into Validator / module API / CLI export",
    text="TLC checks CacheSound and HistoryIndependent on all call histories of <=3 (thorough 4) calls and must reject the config whose cache key lacks the version. It prints the expected verdict for every annotated schema entry (106: keywords, oneOf/anyOf alternatives, objects) x {no version, min-0.1, min, max, max+0.1} x every root->type context, the expected content of get_versioned_schema for 20 schema names x 29 versions, and simulated plus exhaustive two-call histories; the real Validator.validate / get_versioned_schema / create / mappyfile.validate / CLI export are compared row by row and after every call; unannotated faults must be judged identically with and without a version.",
    note="Trusted: TLC, harness/versions.py extraction of annotations and probe values from the schema files. version=0 (falsy) is not generated: not a MapServer version.",
